@@ -291,6 +291,77 @@ def gen_alias_program(rng, nops):
     return "; ".join(lines) + "; " + final, expected
 
 
+def gen_object_program(rng, nops):
+    """objects with prototype chains under member / element assignment through aliases, parameters and containers; the reference keeps
+    each object's own members and its prototype link: an assignment changes exactly the targeted object, reads follow the chain"""
+    recs = {}          # variable -> record {'own': {member: value}, 'proto': record | None}; aliases share the record
+    names = []
+    lines = ["def setm(o, m, x) do o[m] = x; o end"]
+    members = ["a", "b", "c"]
+    counter = [0]
+
+    def newname():
+        counter[0] += 1
+        return f"o{counter[0]}"
+
+    def lookup(r, m):
+        depth = 0
+        while r is not None and depth < 50:
+            if m in r['own']:
+                return r['own'][m]
+            r, depth = r['proto'], depth + 1
+        return None
+
+    def above(r, target):
+        while r is not None:
+            if r is target:
+                return True
+            r = r['proto']
+        return False
+
+    n0 = newname()
+    own = {m: rng.randint(0, 9) for m in rng.sample(members, rng.randint(1, 3))}
+    recs[n0] = {'own': dict(own), 'proto': None}
+    names.append(n0)
+    lines.append(f"def {n0} = <*" + ", ".join(f"{m} = {v}" for m, v in own.items()) + "*>")
+    for _ in range(nops):
+        op = rng.choice(["derive", "derive", "alias", "member", "member", "index", "param", "listed", "closure"])
+        t = rng.choice(names)
+        m, x = rng.choice(members), rng.randint(10, 99)
+        if op == "derive":
+            n = newname()
+            own = {mm: rng.randint(0, 9) for mm in rng.sample(members, rng.randint(0, 2))}
+            recs[n] = {'own': dict(own), 'proto': recs[t]}
+            names.append(n)
+            lines.append(f"def {n} = <*_proto_ = {t}" + "".join(f", {mm} = {v}" for mm, v in own.items()) + "*>")
+        elif op == "alias":
+            n = newname()
+            recs[n] = recs[t]
+            names.append(n)
+            lines.append(f"def {n} = {t}")
+        elif op == "member":
+            recs[t]['own'][m] = x
+            lines.append(f"{t}->{m} = {x}")
+        elif op == "index":
+            recs[t]['own'][m] = x
+            lines.append(f"{t}['{m}'] = {x}")
+        elif op == "param":
+            recs[t]['own'][m] = x
+            lines.append(f"setm({t}, '{m}', {x})")
+        elif op == "listed":
+            recs[t]['own'][m] = x
+            lines.append(f"[{t}][0]->{m} = {x}")
+        elif op == "closure":
+            recs[t]['own'][m] = x
+            lines.append(f"(fn() do {t}->{m} = {x} end)()")
+    final = "[" + ", ".join("[" + ", ".join(f"{n}->{m}" for m in members) + "]" for n in names) + "]"
+
+    def show(v):
+        return "NULL" if v is None else str(v)
+    expected = "[" + ", ".join("[" + ", ".join(show(lookup(recs[n], m)) for m in members) + "]" for n in names) + "]"
+    return "; ".join(lines) + "; " + final, expected
+
+
 def run(ctx):
     rng = ctx.rng
     n = len(POOL_SRC)
@@ -298,7 +369,7 @@ def run(ctx):
                 f"{n} values with deep snapshots (structure + container identities) of all arguments before and after; operators and "
                 "copying forms additionally checked for a fresh result; generated alias graphs (variables, parameters, nested containers, "
                 "closures) driven by random sequences of mutating and non-mutating operations, checked against a reference heap and the "
-                "model evaluator; non-trivial = a call where an argument is a container / an alias program with >= 2 aliases")
+                "model evaluator; objects with prototype chains under member / element assignment through aliases, parameters, containers and closures (an assignment changes exactly the targeted object, reads follow the chain); non-trivial = a call where an argument is a container / an alias program with >= 2 aliases")
     d0 = os.getcwd()
     scratch = c13.setup_scratch()
     jobs = []
@@ -362,6 +433,7 @@ def run(ctx):
     # ---------------- alias graphs
     nprog = 1500 if ctx.thorough else 300
     progs = [gen_alias_program(rng, rng.randint(4, 22)) for _ in range(nprog)]
+    progs += [gen_object_program(rng, rng.randint(3, 16)) for _ in range(nprog // 2)]
     reqs = [session.model_request([p]) for p, _ in progs] if ctx.build.ok else []
     resp = core.run_driver(reqs) if reqs else []
     impl = session.ImplSession()
@@ -369,7 +441,7 @@ def run(ctx):
         for k, (src, expected) in enumerate(progs):
             impl.it.environment.map.clear()
             out = impl.run(src)
-            ctx.seen(("alias", src), nontrivial=src.count("def ") > 5)
+            ctx.seen(("alias", src), nontrivial=src.count("def ") > 5 or "_proto_" in src)
             got = None
             if out[0][0] == 'val':
                 got = str(impl.it.interpret(src.rsplit("; ", 1)[1], "again"))
